@@ -18,7 +18,27 @@ import zipfile
 from pathlib import Path
 
 
+def _permute_discovery_order():
+    """VERIF_WALK_SEED: present the entries of every directory to os.walk's callers in a seeded random order
+    (the order in which files are discovered is one of the things a build must not depend on)."""
+    seed = os.environ.get("VERIF_WALK_SEED")
+    if not seed:
+        return
+    import random
+    real_walk = os.walk
+
+    def walk(top, *args, **kwargs):
+        for base, dirs, files in real_walk(top, *args, **kwargs):
+            r = random.Random(f"{seed}:{base}")
+            r.shuffle(dirs)
+            r.shuffle(files)
+            yield base, dirs, files
+
+    os.walk = walk
+
+
 def build(root: str, max_workers: int, zip_out, record: bool):
+    _permute_discovery_order()
     from snooty import main as snooty_main
     from snooty.diagnostics import MakeCorrectionMixin
     from snooty.parser import Project
